@@ -26,7 +26,12 @@ def run_dataset(p):
         ex = torch.arange(N, dtype=torch.float32) + 0.5
         td = TensorDict({"locs": locs, "demand": dem, "flag": flag}, batch_size=[N])
         dataset = getattr(ds, p["cls"])(td.clone())
-        if p["extra"]:
+        if p.get("rewrap"):
+            first = dataset.add_key("extra", ex.clone())
+            list(DataLoader(first, batch_size=bs, collate_fn=first.collate_fn))  # the first wrapper is read (an epoch of training)
+            ex = ex + 100.0  # the baseline is re-evaluated: new values, same key, same base dataset
+            dataset = dataset.add_key("extra", ex.clone())
+        elif p["extra"]:
             dataset = dataset.add_key("extra", ex.clone())
         dl = DataLoader(dataset, batch_size=bs, sampler=_Order(perm), collate_fn=dataset.collate_fn)
         bad, pos = [], 0
